@@ -431,6 +431,32 @@ impl World {
         if run % 16 >= 8 {
             p.stack_kib = vec![2048, 8192];
         }
+        // every fourth long run is a CONFIGURATION CHURN (after S67): a handful of small modules with custom-element
+        // candidates, compiled 600 (thorough: 1500) times under as many distinct pattern lists - every other one
+        // matching `x-` tags - so that whatever a process keeps per configuration is pushed past any capacity
+        if run % 4 == 3 {
+            let base: Vec<usize> = self
+                .pool
+                .iter()
+                .copied()
+                .filter(|i| {
+                    let t = &self.tasks[*i];
+                    t.opt_name == "own" && t.comments && !t.script && (t.name.starts_with("w2/state/custom-elements") || t.name.starts_with("w2/grid/patterns-split/") || t.name.starts_with("w2/grid/patterns-variants/"))
+                })
+                .collect();
+            if !base.is_empty() {
+                let n = if self.thorough { 1500 } else { 600 };
+                for i in 0..n {
+                    let mut t = self.tasks[base[rng.below(base.len())]].clone();
+                    let k = mix(self.seed ^ run ^ ((i as u64) << 20)) % 1_000_000;
+                    t.opt_name = format!("churn{i}");
+                    t.options = if i % 2 == 0 { format!("{{\"optimize\":true,\"customElementPatterns\":[\"^x-\",\"^zz{k}-\"]}}") } else { format!("{{\"optimize\":true,\"customElementPatterns\":[\"^zz{k}-\"]}}") };
+                    p.tasks.push(t);
+                }
+                p.strategy = if p.workers == 1 { Strategy::Script } else { Strategy::Random { stay: 97 } };
+                return (p, vec![]);
+            }
+        }
         let n = if self.thorough { self.pool.len().min(1500) } else { self.pool.len().min(400) };
         let with_crashes = run % 2 == 1;
         // a seeded permutation prefix of the pool
